@@ -230,6 +230,7 @@ func apply(a arrays.Array2D[int], g grid, w, h int, o op, val int) (sig, msg str
 }
 
 func main() {
+	ev.GuardFor("C08")
 	r := ev.Start("C08")
 	e = &enum.E{R: r}
 	maxDim := ev.Pick(r, 4, 5)
